@@ -35,7 +35,8 @@ Definition stream := list Q.
 Definition draw (st : stream) : Q * stream :=
   match st with [] => (0, []) | u :: r => (u, r) end.
 
-Definition qsum (l : list Q) : Q := fold_right Qplus 0 l.
+(* sums are reduced to lowest terms after every addition (same value; keeps vm_compute fast) *)
+Definition qsum (l : list Q) : Q := fold_right (fun x acc => Qred (x + acc)) 0 l.
 
 (* bisect_right(cum_weights, x, 0, n-1) for cum_weights = running sums of ws: on a sorted list it is
    the number of leading running sums <= x among the first n-1; comparing w0 <= x, then
